@@ -10,6 +10,10 @@ Static clauses:
               arithmetic, no `max` / `min` / clamp / saturating / checked operation on the way)
   F-FIELDUSE  eval_size_fees consults min_fee_coefficient, min_fee_constant and the configured extra fees
   S-KIND      `fees` enters the template only through Param::apply_fees under the ExpectFees arm (shared with C06)
+  (loop forms) S-CONVERGE / S-FEEFLOW understand two forms of the loop: the pass function is handed the previous evaluation and
+              answers None (today), or it is handed the fee and returns the evaluation while resolve_tx compares - then an exit
+              is a convergence exit on the *equal* edge of `eval.fee == fees` / `eval == best` where the compared variable is what
+              the pass function was fed with and, inside the loop, only ever takes this round's evaluation
 Not decided (runtime quantities): fee = a*|payload| + b + margin as a number; that convergence is reached for every setting.
 """
 from .. import mir, roles, e8_state
